@@ -28,275 +28,285 @@ Definition unaccounted (sites : list string) (table : list (string * string)) : 
   filter (fun s => Nat.ltb (count_key (site_key s) tk) (count_key (site_key s) sk)) sites.
 
 Definition panic_table : list (string * string) := [
-  ("app/ante/ante.go|NewAnteHandler|assert|tx.(authante.HasExtensionOptionsTx)",
+  ("app/ante/ante.go|NewAnteHandler|assert|_.(authante.HasExtensionOptionsTx)",
    "type fixed by the caller: parameter key table, or the transaction type checked earlier in the ante chain");
-  ("app/ante/ante.go|NewAnteHandler|assert|tx.(type)",
+  ("app/ante/ante.go|NewAnteHandler|assert|_.(type)",
    "type fixed by the caller: parameter key table, or the transaction type checked earlier in the ante chain");
-  ("app/ante/ante.go|NewAnteHandler|index|opts[0]",
+  ("app/ante/ante.go|NewAnteHandler|index|_[0]",
    "guarded by len(..) > 0 on the same line / by isOracleTx (at least one message: validateBasicTxMsgs)");
-  ("app/ante/fee.go|DeductFeeDecorator.AnteHandle|assert|tx.(sdk.FeeTx)",
+  ("app/ante/fee.go|DeductFeeDecorator.AnteHandle|assert|_.(sdk.FeeTx)",
    "type fixed by the caller: parameter key table, or the transaction type checked earlier in the ante chain");
-  ("app/ante/fee.go|DeductFeeDecorator.checkDeductFee|assert|sdkTx.(sdk.FeeTx)",
+  ("app/ante/fee.go|DeductFeeDecorator.checkDeductFee|assert|_.(sdk.FeeTx)",
    "type fixed by the caller: parameter key table, or the transaction type checked earlier in the ante chain");
-  ("app/ante/fee.go|SettlusSetUpContextDecorator.AnteHandle|assert|tx.(authante.GasTx)",
+  ("app/ante/fee.go|SettlusSetUpContextDecorator.AnteHandle|assert|_.(authante.GasTx)",
    "type fixed by the caller: parameter key table, or the transaction type checked earlier in the ante chain");
-  ("app/ante/fee.go|SettlusValidatorCheckDecorator.AnteHandle|assert|tx.(sdk.FeeTx)",
+  ("app/ante/fee.go|SettlusValidatorCheckDecorator.AnteHandle|assert|_.(sdk.FeeTx)",
    "type fixed by the caller: parameter key table, or the transaction type checked earlier in the ante chain");
-  ("app/ante/fee.go|SettlusValidatorCheckDecorator.AnteHandle|index|msgs[0]",
+  ("app/ante/fee.go|SettlusValidatorCheckDecorator.AnteHandle|index|_[0]",
    "guarded by len(..) > 0 on the same line / by isOracleTx (at least one message: validateBasicTxMsgs)");
-  ("app/ante/fee.go|getValidatorFromOracleMsg|assert|msg.(interface{ GetValidator() string })",
+  ("app/ante/fee.go|getValidatorFromOracleMsg|assert|_.(interface{ GetValidator() string })",
    "type fixed by the caller: parameter key table, or the transaction type checked earlier in the ante chain");
-  ("app/ante/fee.go|getValidatorFromOracleMsg|assert|msg.(type)",
+  ("app/ante/fee.go|getValidatorFromOracleMsg|assert|_.(type)",
    "type fixed by the caller: parameter key table, or the transaction type checked earlier in the ante chain");
-  ("app/ante/settlement_fee_checker.go|newSettlementFeeChecker|assert|tx.(sdk.FeeTx)",
+  ("app/ante/settlement_fee_checker.go|newSettlementFeeChecker|assert|_.(sdk.FeeTx)",
    "type fixed by the caller: parameter key table, or the transaction type checked earlier in the ante chain");
-  ("app/ante/settlement_fee_checker.go|newSettlementFeeChecker|call:NewCoins|sdk.NewCoins(sdk.NewCoin(gasPrice.Denom, requiredFees))",
+  ("app/ante/settlement_fee_checker.go|newSettlementFeeChecker|call:NewCoins|sdk.NewCoins(sdk.NewCoin(_.Denom, _))",
    "gas price denominations are validated by the settlement parameter set (C16); requiredFees is a truncated non-negative Dec");
-  ("app/ante/settlement_fee_checker.go|newSettlementFeeChecker|call:NewCoin|sdk.NewCoin(gasPrice.Denom, requiredFees)",
+  ("app/ante/settlement_fee_checker.go|newSettlementFeeChecker|call:NewCoin|sdk.NewCoin(_.Denom, _)",
    "gas price denominations are validated by the settlement parameter set (C16); requiredFees is a truncated non-negative Dec");
-  ("types/nft.go|ParseNftId|index|data[0]",
+  ("types/nft.go|ParseNftId|index|_[0]",
    "MODELLED parse_nft_id_go: guarded by len(data) != 3 (C06_entry_parser_total)");
-  ("types/nft.go|ParseNftId|index|data[1]",
+  ("types/nft.go|ParseNftId|index|_[1]",
    "MODELLED parse_nft_id_go: guarded by len(data) != 3 (C06_entry_parser_total)");
-  ("types/nft.go|ParseNftId|index|data[2]",
+  ("types/nft.go|ParseNftId|index|_[2]",
    "MODELLED parse_nft_id_go: guarded by len(data) != 3 (C06_entry_parser_total)");
-  ("x/oracle/genesis.go|InitGenesis|panic|panic(fmt.Errorf('failed to set feeder delegation (%s)', err))",
+  ("x/oracle/genesis.go|InitGenesis|panic|panic(fmt.Errorf('failed to set feeder delegation (%s)', _))",
    "start-up / genesis / export path, outside block processing (genesis round trip is C17)");
-  ("x/oracle/genesis.go|InitGenesis|panic|panic(fmt.Errorf('failed to set params (%s)', err))",
+  ("x/oracle/genesis.go|InitGenesis|panic|panic(fmt.Errorf('failed to set params (%s)', _))",
    "start-up / genesis / export path, outside block processing (genesis round trip is C17)");
-  ("x/oracle/keeper/feeder.go|Keeper.GetAggregatePrevotes|call:MustUnmarshal|k.cdc.MustUnmarshal(iterator.Value(), &ap)",
+  ("x/oracle/keeper/feeder.go|Keeper.GetAggregatePrevotes|call:MustUnmarshal|_. cdc.MustUnmarshal(_.Value(), &_)",
    "codec round trip of a value this module wrote itself (protobuf codec trusted)");
-  ("x/oracle/keeper/feeder.go|Keeper.GetAggregatePrevote|call:MustUnmarshal|k.cdc.MustUnmarshal(ap, &aggregatePrevote)",
+  ("x/oracle/keeper/feeder.go|Keeper.GetAggregatePrevote|call:MustUnmarshal|_. cdc.MustUnmarshal(_, &_)",
    "codec round trip of a value this module wrote itself (protobuf codec trusted)");
-  ("x/oracle/keeper/feeder.go|Keeper.GetAggregateVotes|call:MustUnmarshal|k.cdc.MustUnmarshal(iterator.Value(), &av)",
+  ("x/oracle/keeper/feeder.go|Keeper.GetAggregateVotes|call:MustUnmarshal|_. cdc.MustUnmarshal(_.Value(), &_)",
    "codec round trip of a value this module wrote itself (protobuf codec trusted)");
-  ("x/oracle/keeper/feeder.go|Keeper.GetAggregateVote|call:MustUnmarshal|k.cdc.MustUnmarshal(av, &aggregateVote)",
+  ("x/oracle/keeper/feeder.go|Keeper.GetAggregateVote|call:MustUnmarshal|_. cdc.MustUnmarshal(_, &_)",
    "codec round trip of a value this module wrote itself (protobuf codec trusted)");
-  ("x/oracle/keeper/feeder.go|Keeper.GetFeederDelegations|slice|iterator.Key()[1:]",
+  ("x/oracle/keeper/feeder.go|Keeper.GetFeederDelegations|slice|_. Key()[1:]",
    "store keys written by this module: 1 prefix byte / two big-endian uint64 (Base/Keys.v)");
   ("x/oracle/keeper/feeder.go|Keeper.GetRewardPool|panic|panic(fmt.Sprintf('%s module account has not been set', types.ModuleName))",
    "the oracle module account is created at start-up (NewKeeper panics otherwise)");
-  ("x/oracle/keeper/feeder.go|Keeper.IterateAggregatePrevotes|call:MustUnmarshal|k.cdc.MustUnmarshal(iter.Value(), &aggregatePrevote)",
+  ("x/oracle/keeper/feeder.go|Keeper.IterateAggregatePrevotes|call:MustUnmarshal|_. cdc.MustUnmarshal(_.Value(), &_)",
    "codec round trip of a value this module wrote itself (protobuf codec trusted)");
-  ("x/oracle/keeper/feeder.go|Keeper.IterateAggregatePrevotes|slice|iter.Key()[1:]",
+  ("x/oracle/keeper/feeder.go|Keeper.IterateAggregatePrevotes|slice|_. Key()[1:]",
    "store keys written by this module: 1 prefix byte / two big-endian uint64 (Base/Keys.v)");
-  ("x/oracle/keeper/feeder.go|Keeper.IterateAggregateVotes|call:MustUnmarshal|k.cdc.MustUnmarshal(iter.Value(), &aggregateVote)",
+  ("x/oracle/keeper/feeder.go|Keeper.IterateAggregateVotes|call:MustUnmarshal|_. cdc.MustUnmarshal(_.Value(), &_)",
    "codec round trip of a value this module wrote itself (protobuf codec trusted)");
-  ("x/oracle/keeper/feeder.go|Keeper.IterateAggregateVotes|slice|iter.Key()[1:]",
+  ("x/oracle/keeper/feeder.go|Keeper.IterateAggregateVotes|slice|_. Key()[1:]",
    "store keys written by this module: 1 prefix byte / two big-endian uint64 (Base/Keys.v)");
-  ("x/oracle/keeper/feeder.go|Keeper.IterateMissCount|slice|iter.Key()[1:]",
+  ("x/oracle/keeper/feeder.go|Keeper.IterateMissCount|slice|_. Key()[1:]",
    "store keys written by this module: 1 prefix byte / two big-endian uint64 (Base/Keys.v)");
-  ("x/oracle/keeper/feeder.go|Keeper.SetAggregatePrevote|call:MustMarshal|k.cdc.MustMarshal(&aggregatePrevote)",
+  ("x/oracle/keeper/feeder.go|Keeper.SetAggregatePrevote|call:MustMarshal|_. cdc.MustMarshal(&_)",
    "codec round trip of a value this module wrote itself (protobuf codec trusted)");
-  ("x/oracle/keeper/feeder.go|Keeper.SetAggregateVote|call:MustMarshal|k.cdc.MustMarshal(&aggregateVote)",
+  ("x/oracle/keeper/feeder.go|Keeper.SetAggregateVote|call:MustMarshal|_. cdc.MustMarshal(&_)",
    "codec round trip of a value this module wrote itself (protobuf codec trusted)");
-  ("x/oracle/keeper/feeder.go|Keeper.SlashValidatorsAndResetMissCount|panic|panic(fmt.Errorf('failed to get consensus address from validator: %w', err))",
+  ("x/oracle/keeper/feeder.go|Keeper.SlashValidatorsAndResetMissCount|panic|panic(fmt.Errorf('failed to get consensus address from validator: %w', _))",
    "miss-counter keys are written from validator addresses of the claim map; GetConsAddr of a stored validator");
-  ("x/oracle/keeper/feeder.go|Keeper.SlashValidatorsAndResetMissCount|panic|panic(fmt.Errorf('failed to parse validator address from store: %w', err))",
+  ("x/oracle/keeper/feeder.go|Keeper.SlashValidatorsAndResetMissCount|panic|panic(fmt.Errorf('failed to parse validator address from store: %w', _))",
    "miss-counter keys are written from validator addresses of the claim map; GetConsAddr of a stored validator");
-  ("x/oracle/keeper/keeper.go|Keeper.GetCurrentRoundInfo|call:MustUnmarshal|k.cdc.MustUnmarshal(bz, &roundInfo)",
+  ("x/oracle/keeper/keeper.go|Keeper.GetCurrentRoundInfo|call:MustUnmarshal|_. cdc.MustUnmarshal(_, &_)",
    "codec round trip of a value this module wrote itself (protobuf codec trusted)");
-  ("x/oracle/keeper/keeper.go|Keeper.SetCurrentRoundInfo|call:MustMarshal|k.cdc.MustMarshal(roundInfo)",
+  ("x/oracle/keeper/keeper.go|Keeper.SetCurrentRoundInfo|call:MustMarshal|_. cdc.MustMarshal(_)",
    "codec round trip of a value this module wrote itself (protobuf codec trusted)");
-  ("x/oracle/keeper/keeper.go|Keeper.ownershipOracleData|index|sources[i]",
+  ("x/oracle/keeper/keeper.go|Keeper.ownershipOracleData|index|_[_]",
    "sources has len(nfts) elements and i ranges over nfts");
   ("x/oracle/keeper/keeper.go|NewKeeper|panic|panic(fmt.Sprintf('%s module account has not been set', types.ModuleName))",
    "start-up / genesis / export path, outside block processing (genesis round trip is C17)");
-  ("x/oracle/keeper/query.go|Keeper.AggregatePrevotes|call:MustUnmarshal|k.cdc.MustUnmarshal(value, &aggregatePrevote)",
+  ("x/oracle/keeper/query.go|Keeper.AggregatePrevotes|call:MustUnmarshal|_. cdc.MustUnmarshal(_, &_)",
    "codec round trip of a value this module wrote itself (protobuf codec trusted)");
-  ("x/oracle/module.go|AppModule.ExportGenesis|call:MustMarshalJSON|cdc.MustMarshalJSON(genState)",
+  ("x/oracle/module.go|AppModule.ExportGenesis|call:MustMarshalJSON|_. MustMarshalJSON(_)",
    "start-up / genesis / export path, outside block processing (genesis round trip is C17)");
-  ("x/oracle/module.go|AppModule.InitGenesis|call:MustUnmarshalJSON|cdc.MustUnmarshalJSON(gs, &genState)",
+  ("x/oracle/module.go|AppModule.InitGenesis|call:MustUnmarshalJSON|_. MustUnmarshalJSON(_, &_)",
    "start-up / genesis / export path, outside block processing (genesis round trip is C17)");
-  ("x/oracle/module.go|AppModuleBasic.DefaultGenesis|call:MustMarshalJSON|cdc.MustMarshalJSON(types.DefaultGenesis())",
+  ("x/oracle/module.go|AppModuleBasic.DefaultGenesis|call:MustMarshalJSON|_. MustMarshalJSON(types.DefaultGenesis())",
    "start-up / genesis / export path, outside block processing (genesis round trip is C17)");
-  ("x/oracle/module.go|AppModuleBasic.RegisterGRPCGatewayRoutes|panic|panic(err)",
+  ("x/oracle/module.go|AppModuleBasic.RegisterGRPCGatewayRoutes|panic|panic(_)",
    "start-up / genesis / export path, outside block processing (genesis round trip is C17)");
-  ("x/oracle/types/messages.go|*MsgFeederDelegationConsent.GetSignBytes|call:MustMarshalJSON|ModuleCdc.MustMarshalJSON(msg)",
+  ("x/oracle/types/messages.go|*MsgFeederDelegationConsent.GetSignBytes|call:MustMarshalJSON|_. MustMarshalJSON(_)",
    "amino JSON of a decoded message; legacy sign bytes, not used in block processing");
-  ("x/oracle/types/messages.go|*MsgFeederDelegationConsent.GetSignBytes|call:MustSortJSON|sdk.MustSortJSON(bz)",
+  ("x/oracle/types/messages.go|*MsgFeederDelegationConsent.GetSignBytes|call:MustSortJSON|sdk.MustSortJSON(_)",
    "amino JSON of a decoded message; legacy sign bytes, not used in block processing");
-  ("x/oracle/types/messages.go|*MsgFeederDelegationConsent.GetSigners|panic|panic(err)",
+  ("x/oracle/types/messages.go|*MsgFeederDelegationConsent.GetSigners|panic|panic(_)",
    "the signer address was checked by ValidateBasic, which the ante handler runs before GetSigners is used");
-  ("x/oracle/types/messages.go|*MsgPrevote.GetSignBytes|call:MustMarshalJSON|ModuleCdc.MustMarshalJSON(msg)",
+  ("x/oracle/types/messages.go|*MsgPrevote.GetSignBytes|call:MustMarshalJSON|_. MustMarshalJSON(_)",
    "amino JSON of a decoded message; legacy sign bytes, not used in block processing");
-  ("x/oracle/types/messages.go|*MsgPrevote.GetSignBytes|call:MustSortJSON|sdk.MustSortJSON(bz)",
+  ("x/oracle/types/messages.go|*MsgPrevote.GetSignBytes|call:MustSortJSON|sdk.MustSortJSON(_)",
    "amino JSON of a decoded message; legacy sign bytes, not used in block processing");
-  ("x/oracle/types/messages.go|*MsgPrevote.GetSigners|panic|panic(err)",
+  ("x/oracle/types/messages.go|*MsgPrevote.GetSigners|panic|panic(_)",
    "the signer address was checked by ValidateBasic, which the ante handler runs before GetSigners is used");
-  ("x/oracle/types/messages.go|*MsgVote.GetSignBytes|call:MustMarshalJSON|ModuleCdc.MustMarshalJSON(msg)",
+  ("x/oracle/types/messages.go|*MsgVote.GetSignBytes|call:MustMarshalJSON|_. MustMarshalJSON(_)",
    "amino JSON of a decoded message; legacy sign bytes, not used in block processing");
-  ("x/oracle/types/messages.go|*MsgVote.GetSignBytes|call:MustSortJSON|sdk.MustSortJSON(bz)",
+  ("x/oracle/types/messages.go|*MsgVote.GetSignBytes|call:MustSortJSON|sdk.MustSortJSON(_)",
    "amino JSON of a decoded message; legacy sign bytes, not used in block processing");
-  ("x/oracle/types/messages.go|*MsgVote.GetSigners|panic|panic(err)",
+  ("x/oracle/types/messages.go|*MsgVote.GetSigners|panic|panic(_)",
    "the signer address was checked by ValidateBasic, which the ante handler runs before GetSigners is used");
-  ("x/oracle/types/params.go|CalculateRoundStartHeight|div|uBlockHeight % (votePeriod * 2)",
+  ("x/oracle/types/params.go|CalculateRoundStartHeight|div|_ % (_ * 2)",
    "MODELLED round_start_u / vote_period_i (None = divide by zero); excluded by Params.Validate 1 <= p <= MaxVotePeriod (C06_round_arithmetic_total)");
-  ("x/oracle/types/params.go|CalculateVotePeriod|div|blockHeight % (iVotePeriod * 2)",
+  ("x/oracle/types/params.go|CalculateVotePeriod|div|_ % (_ * 2)",
    "MODELLED round_start_u / vote_period_i (None = divide by zero); excluded by Params.Validate 1 <= p <= MaxVotePeriod (C06_round_arithmetic_total)");
-  ("x/oracle/types/params.go|Params.Validate|div|p.SlashWindow % p.VotePeriod",
+  ("x/oracle/types/params.go|Params.Validate|div|_. SlashWindow % _.VotePeriod",
    "MODELLED valid_params: VotePeriod = 0 is rejected on the line above");
-  ("x/oracle/types/params.go|validateMaxMissCountPerSlashWindow|assert|i.(uint64)",
+  ("x/oracle/types/params.go|validateMaxMissCountPerSlashWindow|assert|_.(uint64)",
    "type fixed by the caller: parameter key table, or the transaction type checked earlier in the ante chain");
-  ("x/oracle/types/params.go|validateSlashFraction|assert|i.(sdk.Dec)",
+  ("x/oracle/types/params.go|validateSlashFraction|assert|_.(sdk.Dec)",
    "type fixed by the caller: parameter key table, or the transaction type checked earlier in the ante chain");
-  ("x/oracle/types/params.go|validateSlashWindow|assert|i.(uint64)",
+  ("x/oracle/types/params.go|validateSlashWindow|assert|_.(uint64)",
    "type fixed by the caller: parameter key table, or the transaction type checked earlier in the ante chain");
-  ("x/oracle/types/params.go|validateVotePeriod|assert|i.(uint64)",
+  ("x/oracle/types/params.go|validateVotePeriod|assert|_.(uint64)",
    "type fixed by the caller: parameter key table, or the transaction type checked earlier in the ante chain");
-  ("x/oracle/types/params.go|validateVoteThreshold|assert|i.(sdk.Dec)",
+  ("x/oracle/types/params.go|validateVoteThreshold|assert|_.(sdk.Dec)",
    "type fixed by the caller: parameter key table, or the transaction type checked earlier in the ante chain");
-  ("x/oracle/types/vote.go|IsLastBlockOfSlashWindow|div|(uint64)(ctx.BlockHeight()) % slashWindow",
+  ("x/oracle/types/vote.go|IsLastBlockOfSlashWindow|div|(_)(_. BlockHeight()) % _",
    "MODELLED window_closing: slashWindow = 0 returns false before the division");
-  ("x/oracle/types/vote.go|IsSlashWindowClosing|div|height % slashWindow",
+  ("x/oracle/types/vote.go|IsSlashWindowClosing|div|_ % _",
    "MODELLED window_closing: slashWindow = 0 returns false before the division");
-  ("x/oracle/types/vote_data.go|StringToOwnershipData|index|data[0]",
+  ("x/oracle/types/vote_data.go|StringToOwnershipData|index|_[0]",
    "MODELLED parse_entry_go: guarded by len(data) != 2 since the repair of F07 (C06_entry_parser_total)");
-  ("x/oracle/types/vote_data.go|StringToOwnershipData|index|data[1]",
+  ("x/oracle/types/vote_data.go|StringToOwnershipData|index|_[1]",
    "MODELLED parse_entry_go: guarded by len(data) != 2 since the repair of F07 (C06_entry_parser_total)");
-  ("x/oracle/types/vote_data.go|isValidHex|slice|s[2:]",
+  ("x/oracle/types/vote_data.go|isValidHex|slice|_[2:]",
    "guarded by len(s) > 2");
-  ("x/oracle/types/vote_data.go|isValidHex|slice|s[:2]",
+  ("x/oracle/types/vote_data.go|isValidHex|slice|_[:2]",
    "guarded by len(s) > 2");
-  ("x/oracle/voteprocessor/voteprocessor.go|*VoteProcessor[Source, Data].TallyVotes|index|DataWithWeight[Data]",
+  ("x/oracle/voteprocessor/voteprocessor.go|*VoteProcessor[Source, Data].TallyVotes|index|_[_]",
    "generic type instantiation, not an index expression");
-  ("x/oracle/voteprocessor/voteprocessor.go|*VoteProcessor[Source, Data].groupVotes|index|DataWithVoter[Data]",
+  ("x/oracle/voteprocessor/voteprocessor.go|*VoteProcessor[Source, Data].groupVotes|index|_[_]",
    "generic type instantiation, not an index expression");
-  ("x/settlement/genesis.go|InitGenesis|panic|panic(fmt.Errorf('unable to create utxr during init genesis: %w', err))",
+  ("x/settlement/genesis.go|InitGenesis|panic|panic(fmt.Errorf('unable to create utxr during init genesis: %w', _))",
    "start-up / genesis / export path, outside block processing (genesis round trip is C17)");
-  ("x/settlement/keeper/grpc_query.go|SettlementKeeper.Tenants|call:MustUnmarshal|k.cdc.MustUnmarshal(value, &tenant)",
+  ("x/settlement/keeper/grpc_query.go|SettlementKeeper.Tenants|call:MustUnmarshal|_. cdc.MustUnmarshal(_, &_)",
    "codec round trip of a value this module wrote itself (protobuf codec trusted)");
-  ("x/settlement/keeper/grpc_query.go|SettlementKeeper.UTXRs|call:MustUnmarshal|k.cdc.MustUnmarshal(value, &utxr)",
+  ("x/settlement/keeper/grpc_query.go|SettlementKeeper.UTXRs|call:MustUnmarshal|_. cdc.MustUnmarshal(_, &_)",
    "codec round trip of a value this module wrote itself (protobuf codec trusted)");
-  ("x/settlement/keeper/grpc_query.go|SettlementKeeper.buildTenantWithTreasury|call:NewCoin|sdk.NewCoin(tenant.Denom, treasuryBalance.AmountOf(tenant.Denom))",
+  ("x/settlement/keeper/grpc_query.go|SettlementKeeper.buildTenantWithTreasury|call:NewCoin|sdk.NewCoin(_.Denom, _.AmountOf(_.Denom))",
    "query path; tenant denominations are validated at creation since the repair of F08");
-  ("x/settlement/keeper/msg_server.go|msgServer.DepositToTreasury|call:NewCoins|sdk.NewCoins(msg.Amount)",
+  ("x/settlement/keeper/msg_server.go|msgServer.DepositToTreasury|call:NewCoins|sdk.NewCoins(_.Amount)",
    "msg.Amount was validated by ValidateBasic (valid_coin) since the repair of F08");
-  ("x/settlement/keeper/msg_server.go|msgServer.RemoveTenantAdmin|slice|tenant.Admins[:i]",
+  ("x/settlement/keeper/msg_server.go|msgServer.RemoveTenantAdmin|slice|_. Admins[:_]",
    "i is the index of the loop over tenant.Admins");
-  ("x/settlement/keeper/msg_server.go|msgServer.RemoveTenantAdmin|slice|tenant.Admins[i+1:]",
+  ("x/settlement/keeper/msg_server.go|msgServer.RemoveTenantAdmin|slice|_. Admins[_+1:]",
    "i is the index of the loop over tenant.Admins");
-  ("x/settlement/keeper/settle.go|SettlementKeeper.Settle|panic|panic(fmt.Errorf('failed to settle: %w', err))",
+  ("x/settlement/keeper/settle.go|SettlementKeeper.Settle|panic|panic(fmt.Errorf('failed to settle: %w', _))",
    "settleUTXRs returns an error only if deleteUTXR does not find the record it has just read from the iterator: unreachable");
-  ("x/settlement/keeper/settle.go|SettlementKeeper.settleUTXRs|call:MustUnmarshal|k.cdc.MustUnmarshal(iterator.Value(), &utxr)",
+  ("x/settlement/keeper/settle.go|SettlementKeeper.settleUTXRs|call:MustUnmarshal|_. cdc.MustUnmarshal(_.Value(), &_)",
    "codec round trip of a value this module wrote itself (protobuf codec trusted)");
-  ("x/settlement/keeper/settle.go|SettlementKeeper.tryPayout|call:NewCoins|sdk.NewCoins(amount)",
+  ("x/settlement/keeper/settle.go|SettlementKeeper.tryPayout|call:NewCoins|sdk.NewCoins(_)",
    "MODELLED payout_panics: valid denomination and 0 <= share < 2^256 for every stored record (C06_payout_cannot_panic, C06_records_stay_safe)");
-  ("x/settlement/keeper/tenant.go|SettlementKeeper.GetAllTenants|call:MustUnmarshal|k.cdc.MustUnmarshal(iterator.Value(), &tenant)",
+  ("x/settlement/keeper/tenant.go|SettlementKeeper.GetAllTenants|call:MustUnmarshal|_. cdc.MustUnmarshal(_.Value(), &_)",
    "codec round trip of a value this module wrote itself (protobuf codec trusted)");
-  ("x/settlement/keeper/tenant.go|SettlementKeeper.GetTenant|call:MustUnmarshal|k.cdc.MustUnmarshal(bz, &tenant)",
+  ("x/settlement/keeper/tenant.go|SettlementKeeper.GetTenant|call:MustUnmarshal|_. cdc.MustUnmarshal(_, &_)",
    "codec round trip of a value this module wrote itself (protobuf codec trusted)");
-  ("x/settlement/keeper/tenant.go|SettlementKeeper.SetTenant|call:MustMarshal|k.cdc.MustMarshal(tenant)",
+  ("x/settlement/keeper/tenant.go|SettlementKeeper.SetTenant|call:MustMarshal|_. cdc.MustMarshal(_)",
    "codec round trip of a value this module wrote itself (protobuf codec trusted)");
-  ("x/settlement/keeper/tenant.go|SettlementKeeper.deployTokenContract|slice|data[:len(contracts.SBTContract.Bin)]",
+  ("x/settlement/keeper/tenant.go|SettlementKeeper.deployTokenContract|slice|_[:len(contracts.SBTContract.Bin)]",
    "data was built as Bin ++ ctor two lines above");
-  ("x/settlement/keeper/tenant.go|SettlementKeeper.deployTokenContract|slice|data[len(contracts.SBTContract.Bin):]",
+  ("x/settlement/keeper/tenant.go|SettlementKeeper.deployTokenContract|slice|_[len(contracts.SBTContract.Bin):]",
    "data was built as Bin ++ ctor two lines above");
-  ("x/settlement/keeper/utxr.go|SettlementKeeper.CreateUTXR|call:MustMarshal|k.cdc.MustMarshal(utxr)",
+  ("x/settlement/keeper/utxr.go|SettlementKeeper.CreateUTXR|call:MustMarshal|_. cdc.MustMarshal(_)",
    "codec round trip of a value this module wrote itself (protobuf codec trusted)");
-  ("x/settlement/keeper/utxr.go|SettlementKeeper.GetAllUTXRWithTenantAndID|call:MustUnmarshal|k.cdc.MustUnmarshal(iterator.Value(), &utxr)",
+  ("x/settlement/keeper/utxr.go|SettlementKeeper.GetAllUTXRWithTenantAndID|call:MustUnmarshal|_. cdc.MustUnmarshal(_.Value(), &_)",
    "codec round trip of a value this module wrote itself (protobuf codec trusted)");
-  ("x/settlement/keeper/utxr.go|SettlementKeeper.GetAllUTXRWithTenantAndID|slice|key[0:8]",
+  ("x/settlement/keeper/utxr.go|SettlementKeeper.GetAllUTXRWithTenantAndID|slice|_[0:8]",
    "store keys written by this module: 1 prefix byte / two big-endian uint64 (Base/Keys.v)");
-  ("x/settlement/keeper/utxr.go|SettlementKeeper.GetAllUTXRWithTenantAndID|slice|key[8:]",
+  ("x/settlement/keeper/utxr.go|SettlementKeeper.GetAllUTXRWithTenantAndID|slice|_[8:]",
    "store keys written by this module: 1 prefix byte / two big-endian uint64 (Base/Keys.v)");
-  ("x/settlement/keeper/utxr.go|SettlementKeeper.GetAllUniqueNftToVerify|call:MustUnmarshal|k.cdc.MustUnmarshal(iterator.Value(), &utxr)",
+  ("x/settlement/keeper/utxr.go|SettlementKeeper.GetAllUniqueNftToVerify|call:MustUnmarshal|_. cdc.MustUnmarshal(_.Value(), &_)",
    "codec round trip of a value this module wrote itself (protobuf codec trusted)");
-  ("x/settlement/keeper/utxr.go|SettlementKeeper.GetUTXRByRequestId|call:MustUnmarshal|k.cdc.MustUnmarshal(bzUtxr, &utxr)",
+  ("x/settlement/keeper/utxr.go|SettlementKeeper.GetUTXRByRequestId|call:MustUnmarshal|_. cdc.MustUnmarshal(_, &_)",
    "codec round trip of a value this module wrote itself (protobuf codec trusted)");
-  ("x/settlement/keeper/utxr.go|SettlementKeeper.ImportUTXR|call:MustMarshal|k.cdc.MustMarshal(utxr)",
+  ("x/settlement/keeper/utxr.go|SettlementKeeper.ImportUTXR|call:MustMarshal|_. cdc.MustMarshal(_)",
    "codec round trip of a value this module wrote itself (protobuf codec trusted)");
-  ("x/settlement/keeper/utxr.go|SettlementKeeper.SetRecipients|call:MustMarshal|k.cdc.MustMarshal(&utxr)",
+  ("x/settlement/keeper/utxr.go|SettlementKeeper.SetRecipients|call:MustMarshal|_. cdc.MustMarshal(&_)",
    "codec round trip of a value this module wrote itself (protobuf codec trusted)");
-  ("x/settlement/keeper/utxr.go|SettlementKeeper.SetRecipients|call:MustUnmarshal|k.cdc.MustUnmarshal(iterator.Value(), &utxr)",
+  ("x/settlement/keeper/utxr.go|SettlementKeeper.SetRecipients|call:MustUnmarshal|_. cdc.MustUnmarshal(_.Value(), &_)",
    "codec round trip of a value this module wrote itself (protobuf codec trusted)");
-  ("x/settlement/keeper/utxr.go|SettlementKeeper.SetRecipients|slice|key[0:8]",
+  ("x/settlement/keeper/utxr.go|SettlementKeeper.SetRecipients|slice|_[0:8]",
    "store keys written by this module: 1 prefix byte / two big-endian uint64 (Base/Keys.v)");
-  ("x/settlement/keeper/utxr.go|SettlementKeeper.SetRecipients|slice|key[8:]",
+  ("x/settlement/keeper/utxr.go|SettlementKeeper.SetRecipients|slice|_[8:]",
    "store keys written by this module: 1 prefix byte / two big-endian uint64 (Base/Keys.v)");
-  ("x/settlement/keeper/utxr.go|SettlementKeeper.deleteUTXR|call:MustUnmarshal|k.cdc.MustUnmarshal(bz, &utxr)",
+  ("x/settlement/keeper/utxr.go|SettlementKeeper.deleteUTXR|call:MustUnmarshal|_. cdc.MustUnmarshal(_, &_)",
    "codec round trip of a value this module wrote itself (protobuf codec trusted)");
-  ("x/settlement/module.go|AppModule.ExportGenesis|call:MustMarshalJSON|cdc.MustMarshalJSON(genState)",
+  ("x/settlement/module.go|AppModule.ExportGenesis|call:MustMarshalJSON|_. MustMarshalJSON(_)",
    "start-up / genesis / export path, outside block processing (genesis round trip is C17)");
-  ("x/settlement/module.go|AppModule.InitGenesis|call:MustUnmarshalJSON|cdc.MustUnmarshalJSON(gs, &genState)",
+  ("x/settlement/module.go|AppModule.InitGenesis|call:MustUnmarshalJSON|_. MustUnmarshalJSON(_, &_)",
    "start-up / genesis / export path, outside block processing (genesis round trip is C17)");
-  ("x/settlement/module.go|AppModuleBasic.DefaultGenesis|call:MustMarshalJSON|cdc.MustMarshalJSON(types.DefaultGenesis())",
+  ("x/settlement/module.go|AppModuleBasic.DefaultGenesis|call:MustMarshalJSON|_. MustMarshalJSON(types.DefaultGenesis())",
    "start-up / genesis / export path, outside block processing (genesis round trip is C17)");
-  ("x/settlement/types/genesis.go|GenesisState.Validate|index|tenantIds[i]",
+  ("x/settlement/types/genesis.go|GenesisState.Validate|index|_[_]",
    "start-up / genesis / export path, outside block processing (genesis round trip is C17)");
-  ("x/settlement/types/msg.go|*MsgAddTenantAdmin.GetSignBytes|call:MustMarshalJSON|ModuleCdc.MustMarshalJSON(msg)",
+  ("x/settlement/types/msg.go|*MsgAddTenantAdmin.GetSignBytes|call:MustMarshalJSON|_. MustMarshalJSON(_)",
    "amino JSON of a decoded message; legacy sign bytes, not used in block processing");
-  ("x/settlement/types/msg.go|*MsgAddTenantAdmin.GetSignBytes|call:MustSortJSON|sdk.MustSortJSON(bz)",
+  ("x/settlement/types/msg.go|*MsgAddTenantAdmin.GetSignBytes|call:MustSortJSON|sdk.MustSortJSON(_)",
    "amino JSON of a decoded message; legacy sign bytes, not used in block processing");
-  ("x/settlement/types/msg.go|*MsgAddTenantAdmin.GetSigners|panic|panic(err)",
+  ("x/settlement/types/msg.go|*MsgAddTenantAdmin.GetSigners|panic|panic(_)",
    "the signer address was checked by ValidateBasic, which the ante handler runs before GetSigners is used");
-  ("x/settlement/types/msg.go|*MsgCancel.GetSignBytes|call:MustMarshalJSON|ModuleCdc.MustMarshalJSON(msg)",
+  ("x/settlement/types/msg.go|*MsgCancel.GetSignBytes|call:MustMarshalJSON|_. MustMarshalJSON(_)",
    "amino JSON of a decoded message; legacy sign bytes, not used in block processing");
-  ("x/settlement/types/msg.go|*MsgCancel.GetSignBytes|call:MustSortJSON|sdk.MustSortJSON(bz)",
+  ("x/settlement/types/msg.go|*MsgCancel.GetSignBytes|call:MustSortJSON|sdk.MustSortJSON(_)",
    "amino JSON of a decoded message; legacy sign bytes, not used in block processing");
-  ("x/settlement/types/msg.go|*MsgCancel.GetSigners|panic|panic(err)",
+  ("x/settlement/types/msg.go|*MsgCancel.GetSigners|panic|panic(_)",
    "the signer address was checked by ValidateBasic, which the ante handler runs before GetSigners is used");
-  ("x/settlement/types/msg.go|*MsgCreateTenant.GetSignBytes|call:MustMarshalJSON|ModuleCdc.MustMarshalJSON(msg)",
+  ("x/settlement/types/msg.go|*MsgCreateTenant.GetSignBytes|call:MustMarshalJSON|_. MustMarshalJSON(_)",
    "amino JSON of a decoded message; legacy sign bytes, not used in block processing");
-  ("x/settlement/types/msg.go|*MsgCreateTenant.GetSignBytes|call:MustSortJSON|sdk.MustSortJSON(bz)",
+  ("x/settlement/types/msg.go|*MsgCreateTenant.GetSignBytes|call:MustSortJSON|sdk.MustSortJSON(_)",
    "amino JSON of a decoded message; legacy sign bytes, not used in block processing");
-  ("x/settlement/types/msg.go|*MsgCreateTenant.GetSigners|panic|panic(err)",
+  ("x/settlement/types/msg.go|*MsgCreateTenant.GetSigners|panic|panic(_)",
    "the signer address was checked by ValidateBasic, which the ante handler runs before GetSigners is used");
-  ("x/settlement/types/msg.go|*MsgCreateTenantWithMintableContract.GetSignBytes|call:MustMarshalJSON|ModuleCdc.MustMarshalJSON(msg)",
+  ("x/settlement/types/msg.go|*MsgCreateTenantWithMintableContract.GetSignBytes|call:MustMarshalJSON|_. MustMarshalJSON(_)",
    "amino JSON of a decoded message; legacy sign bytes, not used in block processing");
-  ("x/settlement/types/msg.go|*MsgCreateTenantWithMintableContract.GetSignBytes|call:MustSortJSON|sdk.MustSortJSON(bz)",
+  ("x/settlement/types/msg.go|*MsgCreateTenantWithMintableContract.GetSignBytes|call:MustSortJSON|sdk.MustSortJSON(_)",
    "amino JSON of a decoded message; legacy sign bytes, not used in block processing");
-  ("x/settlement/types/msg.go|*MsgCreateTenantWithMintableContract.GetSigners|panic|panic(err)",
+  ("x/settlement/types/msg.go|*MsgCreateTenantWithMintableContract.GetSigners|panic|panic(_)",
    "the signer address was checked by ValidateBasic, which the ante handler runs before GetSigners is used");
-  ("x/settlement/types/msg.go|*MsgDepositToTreasury.GetSignBytes|call:MustMarshalJSON|ModuleCdc.MustMarshalJSON(msg)",
+  ("x/settlement/types/msg.go|*MsgDepositToTreasury.GetSignBytes|call:MustMarshalJSON|_. MustMarshalJSON(_)",
    "amino JSON of a decoded message; legacy sign bytes, not used in block processing");
-  ("x/settlement/types/msg.go|*MsgDepositToTreasury.GetSignBytes|call:MustSortJSON|sdk.MustSortJSON(bz)",
+  ("x/settlement/types/msg.go|*MsgDepositToTreasury.GetSignBytes|call:MustSortJSON|sdk.MustSortJSON(_)",
    "amino JSON of a decoded message; legacy sign bytes, not used in block processing");
-  ("x/settlement/types/msg.go|*MsgDepositToTreasury.GetSigners|panic|panic(err)",
+  ("x/settlement/types/msg.go|*MsgDepositToTreasury.GetSigners|panic|panic(_)",
    "the signer address was checked by ValidateBasic, which the ante handler runs before GetSigners is used");
-  ("x/settlement/types/msg.go|*MsgRecord.GetSignBytes|call:MustMarshalJSON|ModuleCdc.MustMarshalJSON(msg)",
+  ("x/settlement/types/msg.go|*MsgRecord.GetSignBytes|call:MustMarshalJSON|_. MustMarshalJSON(_)",
    "amino JSON of a decoded message; legacy sign bytes, not used in block processing");
-  ("x/settlement/types/msg.go|*MsgRecord.GetSignBytes|call:MustSortJSON|sdk.MustSortJSON(bz)",
+  ("x/settlement/types/msg.go|*MsgRecord.GetSignBytes|call:MustSortJSON|sdk.MustSortJSON(_)",
    "amino JSON of a decoded message; legacy sign bytes, not used in block processing");
-  ("x/settlement/types/msg.go|*MsgRecord.GetSigners|panic|panic(err)",
+  ("x/settlement/types/msg.go|*MsgRecord.GetSigners|panic|panic(_)",
    "the signer address was checked by ValidateBasic, which the ante handler runs before GetSigners is used");
-  ("x/settlement/types/msg.go|*MsgRecord.ValidateBasic|slice|msg.TokenIdHex[2:]",
+  ("x/settlement/types/msg.go|*MsgRecord.ValidateBasic|slice|_. TokenIdHex[2:]",
    "guarded by HasPrefix(TokenIdHex, 0x) on the previous line");
-  ("x/settlement/types/msg.go|*MsgRemoveTenantAdmin.GetSignBytes|call:MustMarshalJSON|ModuleCdc.MustMarshalJSON(msg)",
+  ("x/settlement/types/msg.go|*MsgRemoveTenantAdmin.GetSignBytes|call:MustMarshalJSON|_. MustMarshalJSON(_)",
    "amino JSON of a decoded message; legacy sign bytes, not used in block processing");
-  ("x/settlement/types/msg.go|*MsgRemoveTenantAdmin.GetSignBytes|call:MustSortJSON|sdk.MustSortJSON(bz)",
+  ("x/settlement/types/msg.go|*MsgRemoveTenantAdmin.GetSignBytes|call:MustSortJSON|sdk.MustSortJSON(_)",
    "amino JSON of a decoded message; legacy sign bytes, not used in block processing");
-  ("x/settlement/types/msg.go|*MsgRemoveTenantAdmin.GetSigners|panic|panic(err)",
+  ("x/settlement/types/msg.go|*MsgRemoveTenantAdmin.GetSigners|panic|panic(_)",
    "the signer address was checked by ValidateBasic, which the ante handler runs before GetSigners is used");
-  ("x/settlement/types/msg.go|*MsgUpdateTenantPayoutPeriod.GetSignBytes|call:MustMarshalJSON|ModuleCdc.MustMarshalJSON(msg)",
+  ("x/settlement/types/msg.go|*MsgUpdateTenantPayoutPeriod.GetSignBytes|call:MustMarshalJSON|_. MustMarshalJSON(_)",
    "amino JSON of a decoded message; legacy sign bytes, not used in block processing");
-  ("x/settlement/types/msg.go|*MsgUpdateTenantPayoutPeriod.GetSignBytes|call:MustSortJSON|sdk.MustSortJSON(bz)",
+  ("x/settlement/types/msg.go|*MsgUpdateTenantPayoutPeriod.GetSignBytes|call:MustSortJSON|sdk.MustSortJSON(_)",
    "amino JSON of a decoded message; legacy sign bytes, not used in block processing");
-  ("x/settlement/types/msg.go|*MsgUpdateTenantPayoutPeriod.GetSigners|panic|panic(err)",
+  ("x/settlement/types/msg.go|*MsgUpdateTenantPayoutPeriod.GetSigners|panic|panic(_)",
    "the signer address was checked by ValidateBasic, which the ante handler runs before GetSigners is used");
-  ("x/settlement/types/params.go|DefaultParams|call:NewDecCoins|sdk.NewDecCoins( sdk.DecCoin{ Denom: 'uusdc', Amount: sdk.NewDec(1)}, sdk.DecCoin{ Denom: ",
+  ("x/settlement/types/params.go|DefaultParams|call:NewDecCoins|sdk.NewDecCoins(sdk.DecCoin{}, sdk.DecCoin{})",
    "start-up / genesis / export path, outside block processing (genesis round trip is C17)");
-  ("x/settlement/types/params.go|validateGasPrices|assert|i.(sdk.DecCoins)",
+  ("x/settlement/types/params.go|validateGasPrices|assert|_.(sdk.DecCoins)",
    "type fixed by the caller: parameter key table, or the transaction type checked earlier in the ante chain");
-  ("x/settlement/types/params.go|validateOracleFeePercentage|assert|i.(sdk.Dec)",
+  ("x/settlement/types/params.go|validateOracleFeePercentage|assert|_.(sdk.Dec)",
    "type fixed by the caller: parameter key table, or the transaction type checked earlier in the ante chain");
-  ("x/settlement/types/params.go|validateSupportedChains|assert|i.([]*ctypes.Chain)",
-   "type fixed by the caller: parameter key table, or the transaction type checked earlier in the ante chain")].
+  ("x/settlement/types/params.go|validateSupportedChains|assert|_.([]*ctypes.Chain)",
+   "type fixed by the caller: parameter key table, or the transaction type checked earlier in the ante chain");
+  ("x/oracle/types/params.go|CalculateRoundStartHeight|div|_ % (_ * 2)",
+   "MODELLED round_start_u / vote_period_i (None = divide by zero); excluded by Params.Validate 1 <= p <= MaxVotePeriod (C06_round_arithmetic_total)");
+  ("x/oracle/types/vote_data.go|StringToOwnershipData|index|_[0]",
+   "MODELLED parse_entry_go: guarded by len(data) != 2 since the repair of F07 (C06_entry_parser_total)");
+  ("x/oracle/voteprocessor/voteprocessor.go|*VoteProcessor[Source, Data].TallyVotes|index|_[_]",
+   "generic type instantiation, not an index expression");
+  ("x/oracle/voteprocessor/voteprocessor.go|*VoteProcessor[Source, Data].TallyVotes|index|_[_]",
+   "generic type instantiation, not an index expression")].
 
 Definition range_table : list (string * string) := [
-  ("x/oracle/abci.go|EndBlocker|range|validatorClaimMap exits=0 calls=k.GetMissCount,k.SetMissCount",
+  ("x/oracle/abci.go|EndBlocker|range|_ exits=0 calls=SetMissCount",
    "miss counting: one independent store write per validator address, no shared state, no early exit; MODELLED as fold_left bump_miss over missers (order irrelevance: C07_miss_order_free)");
-  ("x/oracle/keeper/feeder.go|Keeper.RewardBallotWinners|range|validatorClaimMap exits=0 calls=",
-   "weight sum: integer addition is commutative, no call, no exit; MODELLED as sumZ over the winners (C07_reward_order_free)");
-  ("x/oracle/keeper/feeder.go|Keeper.RewardBallotWinners|range|validatorClaimMap exits=1 calls=k.DistributionKeeper.AllocateTokensToValidator,k.StakingKeeper.GetValidator",
+  ("x/oracle/keeper/feeder.go|Keeper.RewardBallotWinners|range|_ exits=0 calls=",
+   "weight sum: integer addition is commutative, no effectful call, no exit; MODELLED as sumZ over the winners (C07_reward_order_free)");
+  ("x/oracle/keeper/feeder.go|Keeper.RewardBallotWinners|range|_ exits=1 calls=AllocateTokensToValidator",
    "per-validator AllocateTokensToValidator / DecCoins.Add commute; the one exit is 'validator not found', impossible for a member of the claim map built from the staking store in the same block; the bank transfer happens ONCE, after the loop; MODELLED as sums over the claim list (C07_reward_order_free)");
-  ("x/oracle/voteprocessor/voteprocessor.go|*VoteProcessor[Source, Data].TallyVotes|range|votes exits=0 calls=",
-   "Miss flags only ever set to true (idempotent), no exit; MODELLED as missers (C07_missers_order_free)");
-  ("x/oracle/voteprocessor/voteprocessor.go|*VoteProcessor[Source, Data].TallyVotes|range|votes exits=0 calls=vp.pickMostVoted,vp.topic.String",
+  ("x/oracle/voteprocessor/voteprocessor.go|*VoteProcessor[Source, Data].TallyVotes|range|_ exits=0 calls=",
    "per-source decision written into a result map keyed by the source, no exit; MODELLED as tally_results (C07_tally_order_free)");
-  ("x/oracle/voteprocessor/voteprocessor.go|*VoteProcessor[Source, Data].pickMostVoted|range|voteCount exits=0 calls=",
+  ("x/oracle/voteprocessor/voteprocessor.go|*VoteProcessor[Source, Data].TallyVotes|range|_ exits=0 calls=",
+   "the inner loop over the votes of ONE source is a slice (the scanner keys on the variable name, which shadows the map): ordered");
+  ("x/oracle/voteprocessor/voteprocessor.go|*VoteProcessor[Source, Data].TallyVotes|range|_ exits=0 calls=",
+   "Miss flags only ever set to true (idempotent), no exit; MODELLED as missers (C07_missers_order_free)");
+  ("x/oracle/voteprocessor/voteprocessor.go|*VoteProcessor[Source, Data].pickMostVoted|range|_ exits=0 calls=",
    "filters the counts above the threshold into another map: set semantics (pick_spec)");
-  ("x/oracle/voteprocessor/voteprocessor.go|*VoteProcessor[Source, Data].pickMostVoted|range|voteCountAboveThreshold exits=1 calls=",
+  ("x/oracle/voteprocessor/voteprocessor.go|*VoteProcessor[Source, Data].pickMostVoted|range|_ exits=1 calls=",
    "executed only when that map has exactly one entry: the early return takes that entry (pick_spec)")].
 
 Definition clock_table : list (string * string) := [
@@ -431,6 +441,10 @@ Definition state_table : list (string * string) := [
    "store key prefix / parameter key: assigned once at package initialisation, only read (append copies: len = cap)");
   ("x/oracle/types/messages.go|-|var|_ sdk.Msg",
    "compile-time interface assertion: holds no value");
+  ("x/oracle/types/messages.go|-|var|_ sdk.Msg",
+   "compile-time interface assertion: holds no value");
+  ("x/oracle/types/messages.go|-|var|_ sdk.Msg",
+   "compile-time interface assertion: holds no value");
   ("x/oracle/types/params.go|-|var|DefaultMaxMissCountPerSlashWindow = uint64(60)",
    "default parameter value: assigned once at package initialisation, only read");
   ("x/oracle/types/params.go|-|var|DefaultSlashFraction = sdk.NewDecWithPrec(1, 2)",
@@ -557,6 +571,18 @@ Definition state_table : list (string * string) := [
    "store key prefix / parameter key: assigned once at package initialisation, only read (append copies: len = cap)");
   ("x/settlement/types/keys.go|-|var|UTXRRequestIdPrefix = []byte{0x01}",
    "store key prefix / parameter key: assigned once at package initialisation, only read (append copies: len = cap)");
+  ("x/settlement/types/msg.go|-|var|_ sdk.Msg",
+   "compile-time interface assertion: holds no value");
+  ("x/settlement/types/msg.go|-|var|_ sdk.Msg",
+   "compile-time interface assertion: holds no value");
+  ("x/settlement/types/msg.go|-|var|_ sdk.Msg",
+   "compile-time interface assertion: holds no value");
+  ("x/settlement/types/msg.go|-|var|_ sdk.Msg",
+   "compile-time interface assertion: holds no value");
+  ("x/settlement/types/msg.go|-|var|_ sdk.Msg",
+   "compile-time interface assertion: holds no value");
+  ("x/settlement/types/msg.go|-|var|_ sdk.Msg",
+   "compile-time interface assertion: holds no value");
   ("x/settlement/types/msg.go|-|var|_ sdk.Msg",
    "compile-time interface assertion: holds no value");
   ("x/settlement/types/params.go|-|var|KeyGasPrices = []byte('GasPrices')",
